@@ -163,3 +163,29 @@ impl Report {
         println!("REPLAY_SUMMARY {}", serde_json::json!({"checked": self.checked, "mismatches": self.mismatches, "extra": extra}));
     }
 }
+
+
+/// A logger that accepts everything and discards it.  With it installed and the level raised, the arguments of the
+/// library's log macros are really evaluated (they are not when logging is off), so behaviour that hides in a log
+/// statement is exercised.  Recorders switch logging on and off between runs: both modes are covered.
+struct NullLogger;
+impl log::Log for NullLogger {
+    fn enabled(&self, _: &log::Metadata) -> bool {
+        true
+    }
+    fn log(&self, record: &log::Record) {
+        // format the arguments (Display impls run), then drop the text
+        let _ = format!("{}", record.args());
+    }
+    fn flush(&self) {}
+}
+static NULL_LOGGER: NullLogger = NullLogger;
+
+pub fn install_logger() {
+    let _ = log::set_logger(&NULL_LOGGER);
+    log::set_max_level(log::LevelFilter::Off);
+}
+
+pub fn logging(on: bool) {
+    log::set_max_level(if on { log::LevelFilter::Trace } else { log::LevelFilter::Off });
+}
